@@ -11,7 +11,7 @@ EXPLANATION = ("CrossHair (z3) executes the real toposort_edges / PAFScorer cons
                "pruning and path bookkeeping ('Confirmed over all paths').")
 ASSUMPTIONS = ["networkx (DiGraph, topological_sort, bfs_edges) is executed for real and trusted", "node indices are 0..n for n edges"]
 STUBS = ["one concrete warm-up call of toposort_edges before analysis (networkx lazily exec-compiles dispatch wrappers, which CrossHair forbids)", "loguru logger -> no-op"]
-OUTSIDE = ["skeletons with more than 4 nodes (quick) / 5 nodes (thorough); 6-7 nodes are outside the claim", "non-tree graphs"]
+OUTSIDE = ["skeletons with more than 4 nodes (3 edges); 5-7 nodes are outside the claim", "non-tree graphs"]
 REQUIRED_WITNESSES = []
 BUDGET_S = {"quick": 900, "thorough": 7200}
 
